@@ -611,6 +611,23 @@ def expect_groups(chk, key, rule, F, body, paths, wanted, arrays):
     # a different VALUE for such an element is a deviation, other elements altogether are another organisation of the routine
     keys_w = {(w[0], tuple(w[1]), tuple(w[2])) for w in wanted}
     present = sum(1 for k in keys_w if k in found)
+    # the same elements updated inside the same loops but over DIFFERENT ranges is a deviation of the recognised scheme, not another scheme
+    def shape(k):
+        return (k[0], k[1], tuple(f[0] for f in k[2]))
+    found_shapes = {}
+    for k in found:
+        found_shapes.setdefault(shape(k), []).append(k)
+    range_bad = []
+    for k in keys_w:
+        if k not in found and shape(k) in found_shapes:
+            other = found_shapes[shape(k)][0]
+            range_bad.append("%s%s is updated over %s, the scheme runs over %s" % (
+                k[0], list(k[1]), [f[0] + ":" + f[1] + ".." + f[2] + ("(rev)" if f[3] else "") for f in other[2]],
+                [f[0] + ":" + f[1] + ".." + f[2] + ("(rev)" if f[3] else "") for f in k[2]]))
+    if range_bad:
+        chk.ob(key, False, rule, body_loc(F, body), found="loop ranges: %s" % range_bad[:3],
+               required="the element updates of the textbook scheme over its index ranges")
+        return True
     if wanted and present * 2 < len(keys_w):
         chk.undecide(key, "unsupported: the routine does not follow the recognised scheme (%d of %d element updates found)" % (
             n_found, len(wanted)), body_loc(F, body))
@@ -1080,6 +1097,59 @@ def sigma_ranges(p, out=None):
     return out
 
 
+def eval_uniform(p, aval, nval=3.0):
+    """float value of a form when every array element has the value `aval` (sizes = nval); Σ over a range counts as a positive multiple
+    of its summand.  None when the form cannot be evaluated (negative base of a fractional power, unknown function, ...)"""
+    import math
+    total = 0.0
+    for m, c in p.t.items():
+        term = float(c)
+        for a, e in m:
+            if a[0] == "v":
+                v = aval if a[2] else nval
+            elif a[0] == "c":
+                v = nval if a[1] == "n" else None
+                if a[1].startswith("#"):
+                    v = 1.0
+            elif a[0] == "u":
+                v = eval_uniform(a[1], aval, nval)
+            elif a[0] == "f":
+                if a[1] == "Σ":
+                    parts = None
+                    for nb in (1, 2, 3):
+                        parts = fn_parts(a[2], 1 + 2 * nb)
+                        if parts is not None:
+                            break
+                    v = None if parts is None else eval_uniform(parts[0], aval, nval)
+                    v = None if v is None else 2.0 * v
+                else:
+                    x = eval_uniform(a[2], aval, nval)
+                    v = None if x is None else {"abs": abs, "re": lambda t: t}.get(a[1], lambda t: None)(x)
+            else:
+                v = None
+            if v is None:
+                return None
+            ex = float(e[0])
+            if e[1] != 0:
+                return None
+            try:
+                if v < 0 and ex != int(ex):
+                    return None
+                if v == 0 and ex < 0:
+                    return None
+                term *= v ** ex
+            except (OverflowError, ZeroDivisionError, ValueError):
+                return None
+        total += term
+    return total
+
+
+def is_magnitude(p):
+    """the form is a magnitude of the array elements it mentions: zero when they are zero, positive and the same for +a and -a"""
+    z, a, b = eval_uniform(p, 0.0), eval_uniform(p, 1.0), eval_uniform(p, -1.0)
+    return z is not None and a is not None and b is not None and z == 0.0 and a > 0 and abs(a - b) < 1e-12, (z, a, b)
+
+
 def jacobi_control(chk, F, body, paths, P, Q):
     """control conditions of the Jacobi sweeps that are necessary for the result: (1) the iteration stops early only on a quantity
     that covers the whole strict upper triangle; (2) a rotation divides by a_pq and is only performed on paths that exclude a_pq = 0;
@@ -1122,6 +1192,12 @@ def jacobi_control(chk, F, body, paths, P, Q):
                 upper2 = lr[:2] == ("0", "n") and lc[:2] == ("1 + " + r_, "n") and r_ in lc[3]    # for i in 0..n, j in i+1..n
                 cover_ok = upper1 or upper2
                 found = "%s with %s in %s..%s, %s in %s..%s" % (d, r_, lr[0], lr[1], c_, lc[0], lc[1])
+    if exits and cover_ok:
+        pz = cache.get(exits[0][0][2])
+        okm, vals = is_magnitude(pz) if pz is not None else (False, None)
+        chk.ob("loops|jacobi|early-exit|norm", okm, "the quantity the sweeps stop on is a magnitude of the off-diagonal elements: zero when they "
+               "vanish, positive and independent of their signs otherwise (accumulated from zero, with squares or absolute values)", loc,
+               found="value at a = 0, +1, -1: %s" % (vals,), required="0, c, c with c > 0")
     if exits:
         chk.ob("loops|jacobi|early-exit", cover_ok, "the sweeps stop early only on a quantity accumulated over the WHOLE strict upper triangle "
                "of the working matrix (a_ij, i < j)", loc, found=found, required="a[i,j] over j in 0..n, i in 0..j")
@@ -1279,6 +1355,11 @@ def lu_guard(chk, F, body, paths, vi):
             (m_, c_), = idxs
             if c_ != vi:
                 bad_max.append("the tested element is a[%s,%s], not an element of the pivot column %s" % (m_, c_, vi))
+                continue
+            okm, vals = is_magnitude(pk)
+            if not okm:
+                bad_max.append("the tested quantity %s is not a magnitude of a[%s,%s] (values at a = 0, +1, -1: %s): a negative pivot "
+                               "candidate would be taken for zero" % (pk.show()[:60], m_, c_, vals))
                 continue
             if m_ == vi:
                 ok_max = True
